@@ -20,7 +20,7 @@ SYMS = [
     # operator*(matrix, matrix): `return matrix3x2<T>(e1, .., e6);` -- the six constructor arguments
     Sym(H, MUL_ANCHOR, "mat_mul", P("m1") + P("m2"), outputs=["r" + c for c in F6],
         subst=[(r"return\s+matrix3x2<T>\s*\(" + SIX + r"\)\s*;", six_to("r", "return;")),
-               (r"\bm1\.(\w)\b", r"m1\1"), (r"\bm2\.(\w)\b", r"m2\1")],
+               (r"\bm1\.(\w)\b", r"m1\1"), (r"\bm2\.(\w)\b", r"m2\1"), (r"\bT const\b", "long"), (r"\bT\b", "long")],   # named temporaries stay translatable
         doc="operator*(matrix3x2<long>, matrix3x2<long>): the six entries of the product"),
     # operator*=: `(*this) = (*this)*m;` -- operator*'s body is inlined textually with m1 = *this (the members), m2 = m; the product is
     # built as a temporary (t_a .. t_f) and then assigned member by member.  A straight-line rewrite of the body (no call) translates as it stands.
